@@ -68,6 +68,22 @@ impl tokio::io::AsyncRead for ScriptedReader {
     }
 }
 
+/// Client side of a loopback connection, from a source address of its own inside 127.0.0.0/8 (chosen from the process id and a counter):
+/// every source address has its own range of ephemeral ports, so the tens of thousands of short connections of a run -- also of several
+/// runs side by side -- do not exhaust one range while closed ones sit in TIME_WAIT.  Falls back to a plain connect.
+pub async fn connect_loopback(addr: std::net::SocketAddr) -> std::io::Result<tokio::net::TcpStream> {
+    static N: std::sync::atomic::AtomicU32 = std::sync::atomic::AtomicU32::new(0);
+    let n = N.fetch_add(1, std::sync::atomic::Ordering::Relaxed);
+    let pid = std::process::id();
+    let src = std::net::Ipv4Addr::new(127, (1 + pid % 200) as u8, ((pid / 200 + n / 200) % 250) as u8, (2 + n % 200) as u8);
+    if let Ok(sock) = tokio::net::TcpSocket::new_v4() {
+        if sock.bind(std::net::SocketAddr::new(src.into(), 0)).is_ok() {
+            if let Ok(c) = sock.connect(addr).await { return Ok(c) }
+        }
+    }
+    tokio::net::TcpStream::connect(addr).await
+}
+
 /// A connection that accepts at most `cap` bytes per write call (0: everything), as a socket with a nearly full send buffer does.
 pub struct ShortWriter { pub out: Vec<u8>, pub cap: usize, pub writes: u32 }
 impl ShortWriter { pub fn new(cap: usize) -> Self { Self { out: vec![], cap, writes: 0 } } }
